@@ -2,6 +2,8 @@ import Autog.Lemmas.Layers
 import Autog.Model.Phase4
 import Autog.Lemmas.NsInitLayersKahn
 import Autog.Lemmas.LongestPath
+import Autog.Lemmas.Frame
+import Autog.Model.Pipeline
 /-! # C03 — layers are horizontal bands and edges flow downward
 
     (ii) Bands: theorems about the model function `assignYCoords` (Autog/Model/Phase4.lean; compared with the real
@@ -84,6 +86,65 @@ theorem growH_nonneg (g : G) (l : Layer) (h0 : 0 ≤ l.h) : 0 ≤ (growH g l).h 
 
 theorem C03_ns_init_feasible : type_of% @NsInitLayersKahn.init_feasible := @NsInitLayersKahn.init_feasible
 theorem C03_longestpath_heights : type_of% @LongestPath.run_inv := @LongestPath.run_inv
+
+/-! ## end to end: the bands of the public result, for every positioner with an exact model -/
+
+theorem assignY_frame (ls : Rat) (g : G) :
+    (assignYCoords ls g).nodes.size = g.nodes.size ∧ (assignYCoords ls g).layers = g.layers := by
+  have h := placeAllWith_frame (upd := updY) (assignYPlan ls g) g (by
+    intro p hp
+    unfold assignYPlan at hp
+    obtain ⟨q, _, rfl⟩ := List.mem_map.1 hp
+    simp)
+  exact ⟨h.1, h.2.1⟩
+
+/-- every branch of `phase4Model` on more than one node ends with `assignYCoords` -/
+theorem phase4Model_is_assignY (cfg : Cfg) (g g4 : G) (hn : (g.nodes.size == 1) = false) (h : phase4Model cfg g = .ok g4) :
+    ∃ g', g4 = assignYCoords cfg.ls g' := by
+  unfold phase4Model at h
+  simp only [hn, Bool.false_eq_true, if_false] at h
+  split at h
+  · cases hs : execSinkColoring cfg.ns g with
+    | error e => simp [hs, bind, Except.bind] at h
+    | ok r => simp only [hs, bind, Except.bind, pure, Except.pure, Except.ok.injEq] at h; exact ⟨r.1, h.symm⟩
+  · unfold phase4Simple at h
+    simp only [hn, Bool.false_eq_true, if_false, bind, Except.bind, pure, Except.pure, Except.ok.injEq] at h
+    exact ⟨_, h.symm⟩
+  · unfold phase4Simple at h
+    simp only [hn, Bool.false_eq_true, if_false, bind, Except.bind, pure, Except.pure, Except.ok.injEq] at h
+    exact ⟨_, h.symm⟩
+  · cases hs : execNsPositioner (thorOf cfg) 4 cfg.ns g with
+    | error e => simp [hs, Except.map] at h
+    | ok r => simp only [hs, Except.map, Except.ok.injEq] at h; exact ⟨r, h.symm⟩
+  · cases hs : BK.execBrandesKoepf cfg.bk cfg.ns g with
+    | error e => simp [hs, Except.map] at h
+    | ok r => simp only [hs, Except.map, Except.ok.injEq] at h; exact ⟨r, h.symm⟩
+  · cases h
+
+/-- END TO END (SinkColoring, VAlign, PackRight, NetworkSimplex, Brandes–Köpf × every modelled router): in the state the composed
+    model hands to result collection, all nodes of the i-th layer list carry the i-th band Y, the band Ys are those of
+    `layerYs` (so `C03_bands_apart` applies to them), and the layer lists are those phase 4 left -/
+theorem C03_public_bands (cfg : Cfg) (g3 g4 g5 : G) (loops : List Nat) (hn : (g3.nodes.size == 1) = false)
+    (h4 : phase4Model cfg g3 = .ok g4) (hwf : LayersWF g4) (h5 : phase5 cfg.p5 cfg.ls g4 = .ok g5)
+    (i : Nat) (hi : i < g4.layers.toList.length) :
+    (postProcess g5 loops).layers = g4.layers ∧
+    ∀ n ∈ (g4.layers.toList[i]).nodes,
+      ((postProcess g5 loops).node n).y = (layerYs cfg.ls g4)[i]'(by rw [layerYs_length]; exact hi) := by
+  have hgeo : GeomEq g4 (postProcess g5 loops) := GeomEq.trans (phase5_geom _ _ _ _ h5) (postProcess_geom g5 loops)
+  refine ⟨hgeo.layers, ?_⟩
+  intro n hnmem
+  obtain ⟨g', rfl⟩ := phase4Model_is_assignY cfg g3 g4 hn h4
+  obtain ⟨hsz, hlay⟩ := assignY_frame cfg.ls g'
+  have hwf' : LayersWF g' := ⟨by rw [← hlay]; exact hwf.nodup, fun m hm => by rw [← hsz]; exact hwf.bound m (by rw [hlay]; exact hm)⟩
+  have hi' : i < g'.layers.toList.length := by rw [← hlay]; exact hi
+  have hmem' : n ∈ (g'.layers.toList[i]).nodes := by
+    have : (assignYCoords cfg.ls g').layers.toList[i] = g'.layers.toList[i] := by simp [hlay]
+    rw [← this]; exact hnmem
+  have hy := C03_band_y cfg.ls g' hwf' i hi' n hmem'
+  have hg := hgeo.geom n
+  simp only [Node.geom, Prod.mk.injEq] at hg
+  rw [hg.2.2.1, hy]
+  simp [layerYs, hlay]
 
 /-! non-vacuity -/
 def exG3 : G :=
